@@ -40,7 +40,7 @@ ASSUMPTIONS = [
     "the grammar uses no hash/gas/precompile abstraction over symbolic data, so every valid model must replay",
     "variables the solver leaves out of its model are unconstrained; the replay uses 0 for them",
 ]
-WATCHDOG_S = {"quick": 1500, "thorough": 7200}
+WATCHDOG_S = {"quick": 2400, "thorough": 10800}
 
 MANIFEST = {
     "technique": "counterexample replay: solver models substituted into the captured symbolic calldata and executed on the reference EVM; validity flag cross-checked against the dumped solver output; generated model-syntax round trips against an independent s-expression reader",
